@@ -94,6 +94,13 @@ def test_frame(spec: dict, case: dict) -> tuple[bytes, int, int]:
             return (b"[" + b"1" * (n - 2) + (b"]" if term else b"1")), n, n
         if shape == "string":
             return (b'"' + b"a" * (n - 2) + (b'"' if term else b"a")), n, n
+        if shape == "space":
+            # white space in front of a document is held like any other unparsed byte (keep-alive CRLFs, padding)
+            n = max(n, 4)
+            ws = (b" \r\n\t" * (n // 4 + 1))
+            if term:
+                return ws[: n - 3] + b"[7]", n, n
+            return ws[:n], n, n
         return (b"1" * (n - 1) + (b"\n" if term else b"1")), n, n - 1
     if k == "hfile":
         n = max(n, 2)
@@ -324,7 +331,7 @@ def st_case(draw: st.DrawFn, tier: str) -> dict:
         "path": "both",
     }
     if kind_of(spec) == "jsonraw":
-        case["shape"] = draw(st.sampled_from(["array", "string", "plain"]))
+        case["shape"] = draw(st.sampled_from(["array", "string", "plain", "space"]))
     return case
 
 
@@ -391,7 +398,7 @@ def enum_cases(tier: str) -> Iterator[dict]:
             spec = dict(base, limit=limit)
             seplen = len(separator_of(spec))
             kind = kind_of(spec)
-            shapes = ["array", "plain", "string"] if kind == "jsonraw" else [None]
+            shapes = ["array", "plain", "string", "space"] if kind == "jsonraw" else [None]
             mode = "all" if limit in limits_all else "sparse"
             hi = limit + 2 * seplen + 3
             if mode == "all":
@@ -400,6 +407,8 @@ def enum_cases(tier: str) -> Iterator[dict]:
                 lengths = [0, 1] + list(range(max(2, limit - 2 * seplen - 3), hi + 1))
             for shape in shapes:
                 for length in lengths:
+                    if kind == "jsonraw" and shape == "space" and length < 4:
+                        continue
                     if kind in ("jsonraw", "hfile") and length < 2:
                         continue
                     for variant in range(0, min(seplen, length + 1) if kind in SEP_KINDS else 1):
